@@ -35,6 +35,17 @@ Other(s) == { [k |-> "neg", a |-> Fld(s, "a")], [k |-> "neg", a |-> Bin("+", Fld
               [k |-> "win", f |-> "SUM", args |-> <<Fld(s, "b")>>, part |-> <<Fld(s, "c"), Fld(s, "b")>>, ord |-> <<>>, sep |-> TRUE],
               [k |-> "win", f |-> "SUM", args |-> <<Fld(s, "b")>>, part |-> <<Fld(s, "c"), Fld(s, "b")>>, ord |-> <<Fld(s, "a")>>] }
            \cup {[k |-> "win", f |-> "SUM", args |-> <<Fld(s, "b")>>, part |-> <<Fld(s, "c")>>, ord |-> <<Fld(s, "a")>>, frame |-> fr] : fr \in Frames}
+           \* offset functions with their optional arguments (defaults that are 0 / '' / absent), ranking and value functions
+           \cup {[k |-> "win", f |-> fname, args |-> as, part |-> <<Fld(s, "c")>>, ord |-> <<Fld(s, "a")>>] :
+                    fname \in {"LAG", "LEAD"}, as \in {<<Fld(s, "b")>>, <<Fld(s, "b"), Num("1")>>, <<Fld(s, "b"), Num("1"), Num("0")>>, <<Fld(s, "b"), Num("2"), Num("-1")>>,
+                                                     <<Fld(s, "c"), Num("1"), Str("")>>}}
+           \cup {[k |-> "win", f |-> "RANK", args |-> <<>>, part |-> <<Fld(s, "c")>>, ord |-> <<Fld(s, "b")>>],
+                 [k |-> "win", f |-> "DENSE_RANK", args |-> <<>>, part |-> <<>>, ord |-> <<Fld(s, "b")>>],
+                 [k |-> "win", f |-> "NTILE", args |-> <<Num("2")>>, part |-> <<>>, ord |-> <<Fld(s, "a")>>],
+                 [k |-> "win", f |-> "FIRST_VALUE", args |-> <<Fld(s, "b")>>, part |-> <<Fld(s, "c")>>, ord |-> <<Fld(s, "a")>>],
+                 [k |-> "win", f |-> "LAST_VALUE", args |-> <<Fld(s, "b")>>, part |-> <<Fld(s, "c")>>, ord |-> <<Fld(s, "a")>>],
+                 [k |-> "win", f |-> "MAX", args |-> <<Fld(s, "b")>>, part |-> <<Fld(s, "c")>>, ord |-> <<>>],
+                 [k |-> "win", f |-> "COUNT", args |-> <<Fld(s, "b")>>, part |-> <<Fld(s, "c")>>, ord |-> <<Fld(s, "a")>>]}
 
 SelTerms(s) == Arith1(s) \cup Arith2(s) \cup Other(s)
 Atom(s) == {Bin("=", Fld(s, "a"), Num("1")), Bin("<", Fld(s, "b"), Num("2")), Bin("<>", Fld(s, "c"), Str("x")), [k |-> "isnull", a |-> Fld(s, "b")]}
@@ -56,6 +67,9 @@ Where(c) == [m |-> "where", crit |-> c]
 SelectUnits(s, rich) ==
        {<<Sel(<<t>>)>> : t \in IF rich THEN SelTerms(s) ELSE {Bin("+", Fld(s, "b"), Num("2")), Fld(s, "c")}}
   \cup {<<Sel(<<WithAl(t, "alx")>>), [m |-> "orderby", terms |-> <<WithAl(t, "alx")>>, dir |-> "DESC"]>> : t \in IF rich THEN {Bin("-", Fld(s, "a"), Fld(s, "b")), Fld(s, "b")} ELSE {}}
+  \* ordering by a column NAME (a string) while a select item carries that name as its alias: the string names the column of the first FROM table
+  \cup (IF rich THEN {<<Sel(<<WithAl(Fld(s, "b"), "c")>>), [m |-> "orderbystr", name |-> "c"]>>,
+                       <<Sel(<<WithAl(Bin("-", Num("0"), Fld(s, "a")), "b")>>), [m |-> "orderbystr", name |-> "b"], [m |-> "limit", n |-> 2]>>} ELSE {})
   \cup {<<Where(c)>> : c \in IF rich THEN Crits(s) ELSE {Bin("<", Fld(s, "b"), Num("2")), Bin("OR", Bin("=", Fld(s, "a"), Num("1")), [k |-> "isnull", a |-> Fld(s, "b")])}}
   \cup {<<[m |-> "distinct"]>>}
   \cup {<<[m |-> "orderby", terms |-> <<t>>, dir |-> d]>> : t \in IF rich THEN {Fld(s, "b"), Bin("-", Fld(s, "a"), Fld(s, "b")), Fld(s, "c")} ELSE {Fld(s, "b")}, d \in {"", "DESC"}}
